@@ -229,3 +229,38 @@ Definition classify (m k : nat) (n : N) : ref :=
 (** table lookup [labels[n]] (keys start at 1) *)
 Definition lookup (tbl : list str) (n : N) : option str :=
   if n =? 0 then None else nth_error tbl (N.to_nat n - 1).
+
+(* ------------------------------------------------------------------------------------------ *)
+(** * Appendix B's own decoder (as in reference verifiers): scan left to right, high digits
+      accumulate in base 5 ([cur := 5*cur + d]), the final A..T letter closes the number
+      ([20*cur + a]).  Specification side only; the code under test does not run this. *)
+Fixpoint horner (w : str) (cur : N) : option N :=
+  match w with
+  | [] => None
+  | c :: r =>
+      match lsdigit c with
+      | Some a => match r with [] => Some (20 * cur + a) | _ :: _ => None end
+      | None => match msdigit c with
+                | Some d => horner r (5 * cur + d)
+                | None => None
+                end
+      end
+  end.
+Definition appendixB_decode (w : str) : option N := horner w 0.
+
+(** Appendix B's decoder for the whole letter stream (one pass, as reference verifiers do it):
+    Z is only legal between numbers, an unfinished number at the end is an error.  0 stands for Z. *)
+Fixpoint spec_stream (s : str) (cur : N) (mid : bool) : option (list N) :=
+  match s with
+  | [] => if mid then None else Some []
+  | c :: r =>
+      if c =? 90 then (if mid then None else option_map (cons 0) (spec_stream r 0 false))
+      else match lsdigit c with
+           | Some a => option_map (cons (20 * cur + a)) (spec_stream r 0 false)
+           | None => match msdigit c with
+                     | Some d => spec_stream r (5 * cur + d) true
+                     | None => None
+                     end
+           end
+  end.
+Definition appendixB_stream (s : str) : option (list N) := spec_stream s 0 false.
